@@ -54,6 +54,65 @@ def check(pc, goal, timeout_ms=None, want_model=True, tracked=False, mbqi=False)
     return str(r), dt, model, s
 
 
+def _symbols(t, cache):
+    """names of the uninterpreted function symbols occurring in a term"""
+    key = t.get_id()
+    if key in cache:
+        return cache[key]
+    out = set()
+    seen = set()
+    todo = [t]
+    while todo:
+        x = todo.pop()
+        if x.get_id() in seen:
+            continue
+        seen.add(x.get_id())
+        if z3.is_quantifier(x):
+            todo.append(x.body())
+            continue
+        if z3.is_app(x):
+            d = x.decl()
+            if d.kind() == z3.Z3_OP_UNINTERPRETED and x.num_args() > 0:
+                out.add(d.name())
+            todo.extend(x.children())
+    cache[key] = out
+    return out
+
+
+def lean_pc(ctx, pc, goal):
+    """Drop the axioms that cannot matter for this query (sound: fewer hypotheses): a defining axiom
+    of spec function f is kept when f (or f_low) is reachable from the query's symbols through kept
+    definitions; a sidecar axiom is kept when every symbol it mentions is reachable.  Loading a
+    second sidecar then does not slow down (or flip) the obligations of the first."""
+    n_ax = len(ctx.axioms_z3)
+    if len(ctx.axiom_meta) != n_ax or tuple(p.get_id() for p in pc[:n_ax]) != tuple(a.get_id() for a in ctx.axioms_z3):
+        return None
+    cache = ctx.__dict__.setdefault("_sym_cache", {})
+    syms = set()
+    for p in pc[n_ax:]:
+        syms |= _symbols(p, cache)
+    syms |= _symbols(goal, cache)
+    keep = [False] * n_ax
+    changed = True
+    while changed:
+        changed = False
+        for i, (kind, name) in enumerate(ctx.axiom_meta):
+            if keep[i]:
+                continue
+            asy = _symbols(ctx.axioms_z3[i], cache)
+            if kind == "def":
+                ok = name in syms or (name + "_low") in syms
+            else:
+                ok = asy <= syms
+            if ok:
+                keep[i] = True
+                changed = True
+                syms |= asy
+    if all(keep):
+        return None
+    return tuple(a for a, k in zip(pc[:n_ax], keep) if k) + tuple(pc[n_ax:])
+
+
 def check_lazy(pc, goal, timeout_ms=20000, step_ms=4000, max_iter=60):
     """Model search for a quantifier-free set of hypotheses by lazy hypothesis addition: solve a
     small subset (starting from the negated goal), evaluate every other hypothesis under the total
@@ -368,12 +427,23 @@ def worker(task, emit=None, skip=(), refute=()):
         r, dt, model, s = "unknown", 0.0, None, None
         stage = None
         stages = [("full", 4000), ("light", 10000), ("light-tracked", 10000)] if goal_q else [("light", 10000), ("light-tracked", 10000), ("full", 4000)]
+        lean = lean_pc(ctx, tuple(o.pc), o.goal)
+        if lean is not None:
+            stages = [("lean", 6000)] + stages
         if i in refute:
             # a proof attempt of this obligation was killed (solver ignored its time-out, typical for
             # satisfiable sequence queries): go straight to the quantifier-free small-scope search
             stages = []
             s = None
         for which, budget in stages:
+            if which == "lean":
+                r2, dt2, _, _ = check(lean, o.goal, min(budget, timeout_ms))
+                dt += dt2
+                if r2 == "unsat":
+                    r = "unsat"
+                    stage = which
+                    break
+                continue
             if which.startswith("light"):
                 if len(light) == len(o.pc) and which == "light":
                     continue
@@ -400,8 +470,17 @@ def worker(task, emit=None, skip=(), refute=()):
         if r == "unknown" and s is not None:
             # another solver generation on the same SMT-LIB text, briefly: z3 4.8's sequence solver
             # often closes in a second what z3 5.1 does not close in minutes (and vice versa)
-            r3, backend3, dt3 = fallback(s, o.name, budget_s=10, order=("z3old", "cvc5"))
+            s_ext = s
+            if lean is not None:
+                s_ext = z3.Solver()
+                for p_ in lean:
+                    s_ext.add(p_)
+                s_ext.add(z3.Not(o.goal))
+            r3, backend3, dt3 = fallback(s_ext, o.name, budget_s=10, order=("z3old", "cvc5"))
             dt += dt3
+            if r3 != "unsat" and s_ext is not s:
+                r3, backend3, dt3 = fallback(s, o.name, budget_s=10, order=("z3old", "cvc5"))
+                dt += dt3
             if r3 == "unsat":
                 r, backend = r3, backend3
                 stage = "external-quick"
